@@ -49,6 +49,10 @@ Next == /\ st.ph = "root"
                    /\ st' = [ph |-> "INDEX", rows |-> rows, cols |-> cols]
                    /\ PrintT(ToJson([f |-> "INDEX", rows |-> rows, cols |-> cols,
                                      m |-> [a \in 1..(rows + 3) |-> [b \in 1..(cols + 3) |-> Index(rows, cols, a - 2, b - 2)]]]))
+           \/ /\ Kind = "COLAREA"
+              /\ \E c1 \in 1..5, w \in 1..3, h \in 1..2, own \in 1..3 :
+                   /\ st' = [ph |-> "COLAREA", c1 |-> c1, w |-> w, h |-> h, own |-> own]
+                   /\ PrintT(ToJson([f |-> "COLAREA", c1 |-> c1, c2 |-> c1 + w - 1, h |-> h, own |-> own, col |-> ColumnOfArea(c1, c1 + w - 1)]))
            \/ /\ Kind = "ADDRESS"
               /\ \E blk \in 0..163 :
                    /\ st' = [ph |-> "ADDRESS", blk |-> blk]
